@@ -428,6 +428,16 @@ package bloomsearch
 //@ loop 2 invariant [C06] *bufferedRowCount == old(*bufferedRowCount) && *bufferedBytes == old(*bufferedBytes) && forall key str :: has(partitionBuffers, key) == old(has(partitionBuffers, key))
 //@ at call sendOptionalWithContext[error]#2 assert [C06] *bufferedRowCount == old(*bufferedRowCount) && *bufferedBytes == old(*bufferedBytes) && forall key str :: has(partitionBuffers, key) == old(has(partitionBuffers, key))
 //@ at call sendOptionalWithContext[error]#3 assert [C06] *bufferedRowCount == old(*bufferedRowCount) && *bufferedBytes == old(*bufferedBytes) && forall key str :: has(partitionBuffers, key) == old(has(partitionBuffers, key))
+// C18 / C04 (ingest link, minmax): once the configured index fields of a row have
+// been looked at, the partition buffer's range for every one of them that the
+// row holds as a number (any integer or float kind, named types included, NaN
+// excluded) contains the bounds the conversion gives for that value — for any
+// list of configured fields, duplicates included.
+//@ pred cOK(v any) = isIntKind(v) || (isFloatKind(v) && !isnan(fltof(v)))
+//@ pred cMin(v any) = isIntKind(v) ? clampZ(ival(v)) : lo(fltInf(fltof(v)), fval(fltof(v)))
+//@ pred cMax(v any) = isIntKind(v) ? clampZ(ival(v)) : hi(fltInf(fltof(v)), fval(fltof(v)))
+//@ loop 7 invariant [C18,C04] -1 <= $index && $index < len(b.config.MinMaxIndexes)
+//@ loop 7 invariant [C18,C04] forall ix in b.config.MinMaxIndexes[:$index + 1] :: has(row, ix) && cOK(row[ix]) ==> has(partitionBuffer.minMaxIndexes, ix) && get(partitionBuffer.minMaxIndexes, ix).Min <= cMin(row[ix]) && cMax(row[ix]) <= get(partitionBuffer.minMaxIndexes, ix).Max
 //@ requires b != nil && doneChans != nil && bufferedRowCount != nil && bufferedBytes != nil && bufferStartTime != nil
 //@ requires [C05] ctx == b.flushCtx
 //@ requires arr(*doneChans) >= $alloc      // the pending list is existing memory, not something this call allocates
@@ -863,9 +873,24 @@ package bloomsearch
 //@   || (x.ExpressionType == BloomExpressionOr && exists ch in x.Children :: brow(ch))
 //@   || (x.ExpressionType == BloomExpressionAnd && forall ch in x.Children :: brow(ch))
 
+// C24 / C25: the evaluator computes exactly the documented boolean combination —
+// it is as selective as the expression says (pruning is effective) as well as
+// sound. bval(x): ANY valuation of nodes that agrees, one level down, with the
+// documented semantics over these filters (bexactOK, an equivalence this time):
+// a leaf is what its filter answers (a missing filter cannot disqualify; unknown
+// condition kinds are false), OR is "some child", AND is "all children", unknown
+// node kinds are false.
+//@ specfun bval(x BloomExpression) bool
+//@ pred bleafEval(c *BloomCondition, ff *bloom.BloomFilter, tf *bloom.BloomFilter, ftf *bloom.BloomFilter) = (c.Type == BloomField && (ff == nil || btest(ff, c.Field))) || (c.Type == BloomToken && (tf == nil || btest(tf, c.Token))) || (c.Type == BloomFieldToken && (ftf == nil || btest(ftf, c.Field + "::" + c.Token)))
+//@ pred bexactOK(x BloomExpression, ff *bloom.BloomFilter, tf *bloom.BloomFilter, ftf *bloom.BloomFilter) = bval(x) <==>
+//@      ((x.ExpressionType == BloomExpressionCondition && (x.Condition == nil || bleafEval(x.Condition, ff, tf, ftf)))
+//@   || (x.ExpressionType == BloomExpressionOr && exists ch in x.Children :: bval(ch))
+//@   || (x.ExpressionType == BloomExpressionAnd && forall ch in x.Children :: bval(ch)))
+
 //@ func (*BloomSearchEngine).evaluateBloomCondition
-//@ props C01
-//@ requires [C01] b != nil && condition != nil
+//@ props C01 C25
+//@ ensures [C25] result <==> bleafEval(condition, fieldFilter, tokenFilter, fieldTokenFilter)
+//@ requires [C01,C25] b != nil && condition != nil
 //@ modifies nothing
 //@ ensures [C01] filtersHold(fieldFilter, tokenFilter, fieldTokenFilter) && bleafSat(condition) ==> result
 
@@ -873,6 +898,11 @@ package bloomsearch
 //@ props C24 C01 C25
 //@ modifies nothing
 //@ ensures expression == nil ==> result
+//@ requires [C25] b != nil
+//@ requires [C25] forall x BloomExpression :: bexactOK(x, fieldFilter, tokenFilter, fieldTokenFilter)
+//@ loop 0 invariant [C25] -1 <= $index && $index < len(expression.Children) && forall ch in expression.Children[:$index + 1] :: !bval(ch)
+//@ loop 1 invariant [C25] -1 <= $index && $index < len(expression.Children) && forall ch in expression.Children[:$index + 1] :: bval(ch)
+//@ ensures [C25] expression != nil ==> (result <==> bval(*expression))
 //@ requires [C01] b != nil
 //@ requires [C01] forall x BloomExpression :: browOK(x)
 //@ loop 0 invariant [C01] -1 <= $index && $index < len(expression.Children) && forall ch in expression.Children[:$index + 1] :: !(filtersHold(fieldFilter, tokenFilter, fieldTokenFilter) && brow(ch))
@@ -1766,6 +1796,7 @@ package bloomsearch
 //@ requires [C18] arr(dst) == 0 || !ghost.pinned[arr(dst)]
 //@ modifies heaps, ghost.seekPos
 //@ ensures result1 == nil && normalizeCompressionIsNone(block) ==> result0 == compressed
+//@ ensures result1 == nil && !normalizeCompressionIsNone(block) && cap(dst) >= block.UncompressedSize ==> arr(result0) == arr(dst)     // decodes into dst when it fits
 //@ pred normalizeCompressionIsNone(b *DataBlockMetadata) = b.Compression == "" || b.Compression == CompressionNone
 
 //@ func ReadDataBlockRowData
@@ -1782,6 +1813,10 @@ package bloomsearch
 //@ requires block != nil
 //@ modifies heaps, ghost.bufOwned, ghost.seekPos
 //@ at call getScanBuffer#1 assert [C19] block.RowDataSize <= fileSize(file)
+// C03: the row data handed to the scan is a buffer this call still holds checked
+// out of the pool — it has not been handed back (and so cannot be refilled by
+// another scan) before the caller's release.
+//@ ensures [C03,C19] err == nil ==> arr(rowData) == 0 || ghost.bufOwned[arr(rowData)]
 
 //@ func ReadDataBlockBloomFilters
 //@ props C19 C03
@@ -1831,6 +1866,11 @@ package bloomsearch
 //@ alloc_limit fileSize(r)
 //@ modifies heaps, ghost.seekPos
 //@ ensures result2 == nil ==> result1 == fileSize(r) && result0 != nil
+// everything the returned metadata describes lies inside the file (the limit
+// handed to validate never exceeds the file size, for every value of every
+// footer field)
+//@ ensures [C19,C17] result2 == nil ==> regionFits(result0, fileSize(r))
+//@ ensures [C19,C17] result2 == nil ==> forall k :: 0 <= k && k < len(result0.DataBlocks) ==> blockFits(result0.DataBlocks[k], result0.BlockFilterRegionOffset, result0.BlockFilterRegionOffset + result0.BlockFilterRegionSize)
 
 //@ func (*BloomSearchEngine).loadBlockRowData
 //@ props C19 C13 C18
@@ -2023,3 +2063,139 @@ package bloomsearch
 //@ requires sat(condition, inf, v)
 //@ loop 0 invariant forall k :: 0 <= k && k <= $index ==> !(minMaxIndex.Min <= condition.Values[k] && condition.Values[k] <= minMaxIndex.Max)
 //@ ensures result
+
+// ---------------------------------------------------------------------------
+// file_system_store.go — FileSystemDataStore's write protocol (C16, C06)
+//
+// The filesystem itself is an assumption (os.* are extern contracts whose
+// results are unconstrained: any call may fail). What is proved is the
+// protocol the store follows on top of it, for every outcome of every call:
+// files are only ever created exclusively (never opened over an existing
+// path), every exclusive create that is not handed to the caller is removed
+// again, a file is renamed into place only after it was synced and closed,
+// `published` is set only after the rename and the directory sync succeeded,
+// Abort of a published file removes nothing, and TombstoneFile always removes
+// the pointer's path and, for a ".dat" pointer, the sibling ".tmp".
+// ---------------------------------------------------------------------------
+
+//@ ghostvar fsOpens int        // os.OpenFile calls
+//@ ghostvar fsExclOpens int    // ... with O_WRONLY|O_CREATE|O_EXCL
+//@ ghostvar fsCreated int      // ... that succeeded
+//@ ghostvar fsRemoves int      // os.Remove calls
+//@ ghostvar fsSyncOK int       // (*os.File).Sync calls that returned nil
+//@ ghostvar fsCloses int       // (*os.File).Close calls
+//@ ghostvar fsCloseOK int      // ... that returned nil
+//@ ghostvar fsRenames int      // os.Rename calls
+//@ ghostvar fsRenameOK int     // ... that returned nil
+//@ ghostvar fsDirOpens int     // os.Open calls (directory handles for fsync)
+//@ specfun rmPath(n int) str   // the path handed to the n-th os.Remove call
+
+//@ extern os.OpenFile
+//@ modifies ghost.fsOpens, ghost.fsExclOpens, ghost.fsCreated
+//@ ensures ghost.fsOpens == old(ghost.fsOpens) + 1
+//@ ensures ghost.fsExclOpens == old(ghost.fsExclOpens) + (flag == 193 ? 1 : 0)
+//@ ensures ghost.fsCreated == old(ghost.fsCreated) + (result1 == nil ? 1 : 0)
+//@ ensures result1 == nil ==> result0 != nil
+
+//@ extern os.Remove
+//@ modifies ghost.fsRemoves
+//@ ensures ghost.fsRemoves == old(ghost.fsRemoves) + 1
+//@ ensures rmPath(ghost.fsRemoves) == name
+
+//@ extern os.Rename
+//@ modifies ghost.fsRenames, ghost.fsRenameOK
+//@ ensures ghost.fsRenames == old(ghost.fsRenames) + 1
+//@ ensures ghost.fsRenameOK == old(ghost.fsRenameOK) + (result == nil ? 1 : 0)
+
+//@ extern os.Open
+//@ modifies ghost.fsDirOpens
+//@ ensures ghost.fsDirOpens == old(ghost.fsDirOpens) + 1
+//@ ensures result1 == nil ==> result0 != nil
+
+//@ extern (*os.File).Sync
+//@ modifies ghost.fsSyncOK
+//@ ensures ghost.fsSyncOK == old(ghost.fsSyncOK) + (result == nil ? 1 : 0)
+
+//@ extern (*os.File).Close
+//@ modifies ghost.fsCloses, ghost.fsCloseOK
+//@ ensures ghost.fsCloses == old(ghost.fsCloses) + 1
+//@ ensures ghost.fsCloseOK == old(ghost.fsCloseOK) + (result == nil ? 1 : 0)
+
+//@ extern os.IsExist
+//@ pure
+//@ extern os.IsNotExist
+//@ pure
+//@ extern filepath.Join
+//@ pure
+//@ extern filepath.Dir
+//@ pure
+//@ extern strings.HasSuffix
+//@ pure
+//@ extern strings.TrimSuffix
+//@ pure
+
+//@ modset fs = ghost.fsOpens, ghost.fsExclOpens, ghost.fsCreated, ghost.fsRemoves, ghost.fsSyncOK, ghost.fsCloses, ghost.fsCloseOK, ghost.fsRenames, ghost.fsRenameOK, ghost.fsDirOpens
+
+// CreateFile: only exclusive creates; on success exactly the reservation and the
+// temp file of this attempt are held (two creates more than removes); on every
+// failure nothing is held.
+//@ func (*FileSystemDataStore).CreateFile
+//@ props C16
+//@ requires fs != nil
+//@ modifies heaps, $fs
+//@ loop 0 invariant ghost.fsOpens - old(ghost.fsOpens) == ghost.fsExclOpens - old(ghost.fsExclOpens)
+//@ loop 0 invariant ghost.fsCreated - old(ghost.fsCreated) == ghost.fsRemoves - old(ghost.fsRemoves)
+//@ loop 0 invariant ghost.fsRenames == old(ghost.fsRenames)
+//@ ensures ghost.fsOpens - old(ghost.fsOpens) == ghost.fsExclOpens - old(ghost.fsExclOpens)
+//@ ensures result2 == nil ==> ghost.fsCreated - old(ghost.fsCreated) == ghost.fsRemoves - old(ghost.fsRemoves) + 2
+//@ ensures result2 != nil ==> ghost.fsCreated - old(ghost.fsCreated) == ghost.fsRemoves - old(ghost.fsRemoves)
+//@ ensures ghost.fsRenames == old(ghost.fsRenames)
+
+// Close: sync, close, rename, directory sync — in that order, each only after
+// the previous one succeeded; published only when all four did.
+//@ func (*renameOnCloseFile).Close
+//@ props C16 C06
+//@ requires f != nil
+//@ modifies f.published, $fs
+//@ at call os.Rename#1 assert ghost.fsSyncOK == old(ghost.fsSyncOK) + 1 && ghost.fsCloseOK == old(ghost.fsCloseOK) + 1
+//@ at call syncDir#1 assert ghost.fsRenameOK == old(ghost.fsRenameOK) + 1
+//@ ensures ghost.fsRenames <= old(ghost.fsRenames) + 1 && ghost.fsRemoves == old(ghost.fsRemoves)
+//@ ensures result == nil ==> f.published && ghost.fsRenameOK == old(ghost.fsRenameOK) + 1 && ghost.fsSyncOK >= old(ghost.fsSyncOK) + 2
+//@ ensures result != nil ==> f.published == old(f.published)
+
+//@ func syncDir
+//@ props C16 C06
+//@ modifies ghost.fsDirOpens, ghost.fsSyncOK, ghost.fsCloses, ghost.fsCloseOK
+//@ ensures result == nil ==> ghost.fsSyncOK == old(ghost.fsSyncOK) + 1
+//@ ensures ghost.fsSyncOK <= old(ghost.fsSyncOK) + 1
+
+// Abort: a published file is left alone; otherwise both artifacts are removed,
+// whatever the first removal reports.
+//@ func (*renameOnCloseFile).Abort
+//@ props C16 C06
+//@ requires f != nil
+//@ modifies heaps, $fs
+//@ ensures old(f.published) ==> ghost.fsRemoves == old(ghost.fsRemoves) && result == nil
+//@ ensures !old(f.published) ==> ghost.fsRemoves == old(ghost.fsRemoves) + 2 && rmPath(old(ghost.fsRemoves) + 1) == f.tempPath && rmPath(old(ghost.fsRemoves) + 2) == f.finalPath
+//@ ensures ghost.fsRenames == old(ghost.fsRenames)
+
+// TombstoneFile: the pointer's path is always removed.
+//@ func (*FileSystemDataStore).TombstoneFile
+//@ props C16
+//@ modifies heaps, $fs
+//@ ensures ghost.fsRemoves >= old(ghost.fsRemoves) + 1 && ghost.fsRemoves <= old(ghost.fsRemoves) + 2
+//@ ensures ghost.fsRenames == old(ghost.fsRenames) && ghost.fsOpens == old(ghost.fsOpens)
+
+// The filesystem MetaStore's Update removes exactly the deleted pointers' paths
+// (one Remove per delete operation) and creates or renames nothing; OpenFile
+// never creates.
+//@ func (*FileSystemDataStore).Update
+//@ props C16
+//@ modifies heaps, $fs
+//@ loop 0 invariant -1 <= $index && $index < len(deletes) && ghost.fsRemoves == old(ghost.fsRemoves) + $index + 1 && ghost.fsOpens == old(ghost.fsOpens) && ghost.fsRenames == old(ghost.fsRenames)
+//@ ensures ghost.fsRemoves == old(ghost.fsRemoves) + len(deletes) && ghost.fsOpens == old(ghost.fsOpens) && ghost.fsRenames == old(ghost.fsRenames) && result == nil
+
+//@ func (*FileSystemDataStore).OpenFile
+//@ props C16
+//@ modifies heaps, $fs
+//@ ensures ghost.fsOpens == old(ghost.fsOpens) && ghost.fsRemoves == old(ghost.fsRemoves) && ghost.fsRenames == old(ghost.fsRenames)
